@@ -120,11 +120,15 @@ func runC07(r *engine.Run) {
 	r.Rule("CLONE-linear", "one Clone() result has one owner: the copy produced by a single Clone() call is not both stored in a cache map and handed out (or stored in two maps) on the same execution; every boundary crossing needs a Clone() call of its own")
 	r.Rule("WHO-layers", "BlockCacher.setValue is called only from TransactionCache.Commit; the state cache's key->versions map and hash links are written only in StateCache.commit/commitRound/Get/Remove; no call path leads from TransactionCache.{Set,Remove,Get} to setValue or from BlockCache.{Set,remove,Get,setValue} to StateCache.commit (repo call graph, interface calls by class hierarchy)")
 	r.Rule("CLONE-deep", "for every repo type implementing statecache.Value, Clone() does not return the receiver or anything sharing a reference with it: accepted forms are the codec copy (CreateNode over the receiver's Encode()) or a type without reference fields; CopyFrom stores only what it obtained through Clone()")
+	r.Rule("DOM-writekept", "see C06: a write or removal handed to a cache layer (TransactionCache.Set/Remove, BlockCache.Set/setValue/remove) is recorded in that layer's pending map on every feasible path to every return (a store under the key parameter), and these methods never delete from the pending map: a dropped tombstone lets an ancestor's value show through (commit visibility: what a transaction commits is what the block, and after the block's commit its descendants, return)")
+	r.Rule("WHO-readonly", "see C06: lookups never store into a pending map - a pending map is the write set that Commit publishes, so a memoised read would be committed as a write and overwrite what another transaction committed in between (writes are private until commit, and only writes are committed)")
 	r.NotDec = append(r.NotDec, "after commit the committed values are what descendant lookups return (value-level; see C06)")
 	cloneBoundary(r, "C07")
 	cloneLinear(r)
 	whoLayers(r)
 	cloneDeep(r)
+	domWriteKept(r, "DOM-writekept")
+	whoReadOnly(r, "WHO-readonly")
 }
 
 // cloneBoundary checks every sink in package statecache.
